@@ -102,6 +102,30 @@ impl C42 {
             }
         }
         let mut log: Vec<String> = Vec::new();
+        // pre-load (multi-page tables): the same statements under every configuration
+        for (ti, spec) in case.h.tables.iter().enumerate() {
+            if ti >= model.tables.len() {
+                continue;
+            }
+            for (sql, rows) in crate::hist::prefill_statements(spec, 50) {
+                let r0 = matches!(dbs[0].exec(&sql), Exec::Ok { .. });
+                for (i, d) in dbs.iter().enumerate().skip(1) {
+                    let ri = matches!(d.exec(&sql), Exec::Ok { .. });
+                    if ri != r0 {
+                        return out.fail("C42|outcome_differs|INSERT|prefill", format!("pre-load statement: reference ok={} but [{}] ok={}", r0, cfgs[i].label(), ri));
+                    }
+                }
+                if !r0 {
+                    return out.class("prefill_rejected");
+                }
+                model.tables[ti].rows.extend(rows);
+                model.tables[ti].ever_had_rows = true;
+            }
+            if spec.prefill > 0 && model.tables[ti].ever_had_rows {
+                log.push(format!("-- {} rows pre-loaded into {}", spec.prefill, spec.name));
+                out.add_class(if spec.prefill >= 300 { "prefill:600" } else { "prefill:70" });
+            }
+        }
         let mut stmts = 0usize;
         let mut dml = 0usize;
         for op in &case.h.ops {
@@ -225,7 +249,7 @@ fn config_strategy() -> impl Strategy<Value = Config> {
 }
 
 pub fn strategy() -> BoxedStrategy<Case> {
-    let p = Profile { max_ops: 30, dml: 12, ddl: 2, txn: 2, lifecycle: 2, truncate: 1, ..Profile::default() };
+    let p = Profile { max_ops: 30, dml: 12, ddl: 2, txn: 2, lifecycle: 2, truncate: 1, prefill: true, ..Profile::default() };
     (proptest::collection::vec(config_strategy(), 2..4), history_strategy(&p)).prop_map(|(configs, h)| Case { configs, h }).boxed()
 }
 
